@@ -131,6 +131,20 @@ func c16Gen(rng *verifsim.RNG, idx int, tier string) *Plan {
 	for i, k := 0, rng.Range(0, 6); i < k; i++ {
 		p.Actions = append(p.Actions, rsAction(int64(rng.Dur(0, time.Duration(horizon)))+jitter(rng), hostAddr(rng.Intn(3))))
 	}
+	if rng.Bool(0.3) {
+		// a non-deprecated automatic prefix next to the deprecated stanzas, on an
+		// interface whose addresses come and go and may themselves be deprecated
+		// by the kernel: nothing of that turns the configured constants into a
+		// countdown
+		p.Class += "+auto-prefix"
+		v, q := genLifetimes(rng, false, true)
+		s.Prefixes = append(s.Prefixes, PrefixSpec{Prefix: sp("::/64"), Valid: v, Preferred: q})
+		iw := &p.Nodes[0].Ifaces[0]
+		iw.Addrs = pickAddrs(rng, iw.LL, 5)
+		for i, k := 0, rng.Range(1, 3); i < k; i++ {
+			p.Actions = append(p.Actions, Action{At: int64(rng.Dur(0, time.Duration(horizon))) + jitter(rng), Kind: "addrs", If: "eth0", Addrs: pickAddrs(rng, iw.LL, 5)})
+		}
+	}
 	maybeReinit(rng, p, "eth0", 500*nsMs, horizon, 0.25)
 	p.Horizon = horizon
 	return p
